@@ -506,4 +506,52 @@ theorem C18_inflight_delivered (f : Framer) (hv : ValidProto f) (c : Codec) (hco
   · rw [hd] at hF
     exact hc sl.arg sl.want hF
 
+theorem tagCodec_roundTrips : tagCodec.RoundTrips := by
+  intro x y h
+  simp only [tagCodec] at h
+  injection h with h; subst h; rfl
+
+theorem tagCodec_total : tagCodec.Total := fun _ => ⟨_, rfl⟩
+
+/-- non-vacuity: three results of different sizes held across later calls and a scribbled input -/
+example :
+    let s := run .fresh (connF (newFramer (some tagCodec) 4) tagCodec)
+      [.hold 0 .dec [0x5A, 1, 2, 3], .hold 1 .dec [0x5A, 9, 8, 7], .hold 2 .enc [4, 4],
+       .hold 3 .recv [0x84, 1, 0, 1, 8, 0, 0, 0, 3, 0x5A, 6, 6], .mutIn 0 1 0xFF, .hold 4 .dec [0x5A], .drop 1]
+    s.chk 0 = some [1, 2, 3] ∧ s.chk 1 = none ∧ s.chk 2 = some [0x5A, 4, 4] ∧ s.chk 3 = some [6, 6] ∧
+    s.chk 4 = some [] ∧ s.input 0 = some [0x5A, 0xFE, 2, 3] := by decide
+
+/-- FULL STATEMENT ("held results stay intact under EVERY memory discipline of the compressor") is
+    false. Kernel-checked witness for the pooled-and-returned result buffer (`buf := pool.Get();
+    defer pool.Put(buf); return snappy.Decode(buf, data)`): two responses, the second decoded while the
+    first is still held and not longer than the recycled buffer — the holder of the first reads the
+    bytes of the second. This is also the replay input for the real code (op `held`). -/
+theorem C18_cex_pooled_result :
+    let s := run .pooled (connF (newFramer (some tagCodec) 4) tagCodec)
+      [.hold 0 .dec [0x5A, 1, 2, 3], .hold 1 .dec [0x5A, 9, 8, 7]]
+    (s.lookup 0).map (·.want) = some [1, 2, 3] ∧ s.chk 0 = some [9, 8, 7] ∧ s.chk 1 = some [9, 8, 7] := by
+  decide
+
+/-- … the same through the receive path of a connection: two compressed responses in flight (streams
+    1 and 2), the caller of stream 1 parses after stream 2 was received; a SHORTER second body leaves a
+    mixture; a LONGER one does not fit the recycled buffer and leaves the first intact (why strictly
+    sequential use, or growing sizes, never show it). -/
+theorem C18_cex_pooled_inflight :
+    let F := connF (newFramer (some tagCodec) 4) tagCodec
+    let wA : Bytes := [0x84, 1, 0, 1, 8, 0, 0, 0, 4, 0x5A, 1, 2, 3]
+    let wB : Bytes := [0x84, 1, 0, 2, 8, 0, 0, 0, 3, 0x5A, 9, 8]
+    let wC : Bytes := [0x84, 1, 0, 3, 8, 0, 0, 0, 5, 0x5A, 7, 7, 7, 7]
+    (run .pooled F [.hold 1 .recv wA, .hold 2 .recv wB]).chk 1 = some [9, 8, 3] ∧
+    (run .pooled F [.hold 1 .recv wA, .hold 3 .recv wC]).chk 1 = some [1, 2, 3] ∧
+    (run .fresh F [.hold 1 .recv wA, .hold 2 .recv wB, .hold 3 .recv wC]).chk 1 = some [1, 2, 3] := by
+  decide
+
+/-- … and for a result that is a sub-slice of the caller's input (a block handed back without a copy):
+    the caller re-using its input buffer afterwards changes the held result. -/
+theorem C18_cex_alias_input :
+    let s := run .aliasInput (connF (newFramer (some tagCodec) 4) tagCodec)
+      [.hold 0 .dec [0x5A, 1, 2, 3], .mutIn 0 1 0xFF]
+    (s.lookup 0).map (·.want) = some [1, 2, 3] ∧ s.chk 0 = some [0xFE, 2, 3] := by
+  decide
+
 end C18
